@@ -6,6 +6,7 @@ import ast
 from ..model import AnalysisError, ClassInfo, Program
 from ..report import Run
 from ..skel import count_marker, field_class, recv_path, render, render_sites, renderable_classes, root_attr, skeletons, node_child_formatted
+from ..symex import slots_in
 from ..symex import (Alt, CondI, Const, CtxV, EnumV, Evaluator, Hole, Inh, InhOr, JoinP, Lit, Obj, One, Opaque, Phi, Rep,
                      RepI, SlotP, Str, Sym, show, walk_parts)
 from .c08 import _root_self_attr, node_attrs
@@ -18,8 +19,9 @@ REF_PLACEHOLDERS = {"ORACLE": "?", "MSSQL": "?", "MYSQL": "%s", "POSTGRESQL": "$
 
 
 # ------------------------------------------------------------------ R2 evaluation order
-def order_violations(v, last=(0, None), out=None):
-    """walk in textual order; report slots whose evaluation index is lower than an earlier (textually) slot's"""
+def order_violations(v, last=(0, None), out=None, skip=None):
+    """walk in textual order; report slots whose evaluation index is lower than an earlier (textually) slot's;
+    skip(slot) -> True for render calls that cannot carry values (a child's bare name)"""
     if out is None:
         out = []
     seen_idx = set()
@@ -31,7 +33,7 @@ def order_violations(v, last=(0, None), out=None):
             return last
         if isinstance(x, SlotP):
             rp = recv_path(x.recv)
-            if root_attr(rp) in NO_VALUES:
+            if root_attr(rp) in NO_VALUES or (skip is not None and skip(x)):
                 return last
             if x.idx in seen_idx:
                 return last   # the same evaluated string spliced in twice (slice halves)
@@ -224,7 +226,8 @@ def check(program: Program, run: Run) -> None:
     # ---- R2
     seen = set()
     for c, (skv, ev) in sk.items():
-        viols = order_violations(skv)
+        from .c06 import _renders_a_bare_name
+        viols = order_violations(skv, skip=lambda sp, c=c: _renders_a_bare_name(program, c, sp))
         run.ob("C04/R2 evaluation order equals textual order", c.qualname, not viols,
                detail="; ".join(f"{recv_path(b.recv)} evaluated before {recv_path(a.recv)}" for a, b in viols)[:300])
         for a, b in viols:
@@ -235,6 +238,29 @@ def check(program: Program, run: Run) -> None:
             run.finding(key, f"in {c.qualname} the slot `{recv_path(b.recv)}` ({b.src[0] if b.src else ''}) is evaluated before `{recv_path(a.recv)}` but printed after it: "
                              f"their values enter the list in the wrong order and positional placeholders bind to the wrong values",
                         where=f"{b.src[2]}:{b.src[1]}" if b.src else "", rule="R2")
+
+    # ---- R2c: rendered children handed to a template that is data (`self.template.format(*rendered)`): where, how often
+    # and in which order their text appears is decided at run time, while their values entered the list in call order
+    for c, (skv, ev) in sk.items():
+        for part, conds, in_rep in walk_parts(skv):
+            if not isinstance(part, Hole):
+                continue
+            inner = [sp for sp in slots_in(part.value) if root_attr(recv_path(sp.recv)) not in NO_VALUES]
+            if not inner:
+                continue
+            v = part.value
+            fn = inner[0].src[0] if inner[0].src else (part.src[0] if part.src else c.qualname)   # where the children are rendered
+            op = v.args[0] if isinstance(v, Sym) and v.kind == "call" and v.args and isinstance(v.args[0], str) else type(v).__name__
+            if op in (".format", ".format_map") or (isinstance(v, Sym) and v.kind == "op" and v.args and v.args[0] == "%"):
+                tmpl = show(v.args[1])[:40] if isinstance(v, Sym) and len(v.args) > 1 else "?"
+                key = f"C04/data-template:{fn}:{tmpl}"
+                run.ob("C04/R2c rendered children are placed by the code, not by a template that is data", f"{fn}:{tmpl}", False,
+                       detail=", ".join(recv_path(sp.recv) for sp in inner)[:120])
+                if key not in seen:
+                    seen.add(key)
+                    run.finding(key, f"{fn} renders {', '.join(sorted({recv_path(sp.recv) for sp in inner}))} and splices the texts into `{tmpl}`, a template that is data: the values enter the "
+                                     f"list in call order, but a numbered / repeated / omitted replacement field puts the placeholders in another order or number",
+                                where=f"{part.src[2]}:{part.src[1]}" if part.src else "", rule="R2c")
 
     # ---- R2b: a render call that is evaluated records its values; if its text may then be thrown away
     # (default of a lookup, bare expression statement) the value list has entries no placeholder stands for
@@ -265,6 +291,10 @@ def check(program: Program, run: Run) -> None:
         subject = f"{f.qualname}:{ast.unparse(call)[:50]}"
         if isinstance(arg, ast.Constant):
             run.ob("C04/R3 wrapped value is plain data", subject, True, where=f.loc(call), nontrivial=False)
+            continue
+        if any(k.arg == "allow_parametrize" and isinstance(k.value, ast.Constant) and k.value.value is False for k in call.keywords):
+            # never handed to the parameterizer: whatever it wraps is written inline
+            run.ob("C04/R3 wrapped value never reaches the value list (allow_parametrize=False)", subject, True, where=f.loc(call), nontrivial=False)
             continue
         var = arg.id if isinstance(arg, ast.Name) else None
         ok = bool(var) and guarded_plain(f.node, call, var)
